@@ -177,3 +177,67 @@ func TestPropPatherRounds(t *testing.T) {
 		}
 	})
 }
+
+var recIntra = ev.New("c15/intra-as-rounds", "rapid: 2..6 rounds of the real MeasureClockOffsetSCION with 1..3 clients (interleaved mode on) towards a server in the local AS: the only path offered, every round, is the empty path (whose fingerprint is the empty string). Oracle: a client that is in interleaved mode before a round and whose (empty) path is offered again keeps it: its filter is not reset and its first request of the round has the interleaved form. One evaluation = one round. Non-trivial: round >= 2; distinct by (clients, round, gap)")
+
+func TestPropIntraASRounds(t *testing.T) {
+	lIA := ia(1, 0xff0000000110)
+	vt.Check(t, 60, 600, func(t *rapid.T) {
+		m := rapid.IntRange(1, 3).Draw(t, "clients")
+		var cs []*client.SCIONClient
+		var fs []*countingFilter
+		for i := 0; i < m; i++ {
+			f := &countingFilter{}
+			cs, fs = append(cs, &client.SCIONClient{Log: slog.New(slog.NewTextHandler(io.Discard, nil)), InterleavedMode: true, Filter: f}), append(fs, f)
+		}
+		local := udp.UDPAddr{IA: lIA, Host: netlab.UDPAddr(netlab.Addr(1), 0)}
+		remote := udp.UDPAddr{IA: lIA, Host: netlab.UDPAddr(netlab.Addr(3), 10123)}
+		nrounds := rapid.IntRange(2, 6).Draw(t, "rounds")
+		for round := 0; round < nrounds; round++ {
+			for _, h := range hops {
+				h.mu.Lock()
+				thetaSeq++
+				h.theta, h.drop, h.refuse, h.round, h.recs = time.Duration(thetaSeq)*2*time.Second, false, false, 2000+round, nil
+				h.mu.Unlock()
+			}
+			sp, err := (wire.PathSpec{Kind: "empty"}).SnetPath(lIA, lIA, hops[0].conn.LocalAddr().(*net.UDPAddr), nil)
+			if err != nil {
+				t.Fatalf("harness: %v", err)
+			}
+			// which client holds the path, and is in interleaved mode, before the round
+			holder := -1
+			for i, c := range cs {
+				if c.InInterleavedMode() {
+					holder = i
+				}
+			}
+			resets := make([]int, m)
+			for i := range fs {
+				resets[i] = fs[i].resets
+			}
+			ctx, cancel := context.WithTimeout(context.Background(), 2*time.Second)
+			_, _, merr := client.MeasureClockOffsetSCION(ctx, cs[0].Log, cs, local, remote, []snet.Path{sp})
+			cancel()
+			time.Sleep(3 * time.Millisecond)
+			if merr != nil {
+				t.Fatalf("round %d over the empty path failed: %v", round, merr)
+			}
+			hops[0].mu.Lock()
+			recs := append([]*exRec(nil), hops[0].recs...)
+			hops[0].mu.Unlock()
+			if len(recs) == 0 {
+				t.Fatalf("round %d: no request reached the server", round)
+			}
+			if holder >= 0 {
+				if fs[holder].resets != resets[holder] {
+					t.Fatalf("round %d: client %d was in interleaved mode over the (empty) path that is offered again, but it was reset together with its filter", round, holder)
+				}
+				if !recs[0].interleavedForm {
+					t.Fatalf("round %d: client %d was in interleaved mode over the path offered again, but the round's first request is a basic one", round, holder)
+				}
+			}
+			time.Sleep(time.Duration(rapid.IntRange(0, 3).Draw(t, "gap-ms")) * time.Millisecond)
+			recIntra.Eval(round >= 1, ev.Hash(m, round, holder), func() any { return map[string]any{"clients": m, "round": round, "holder": holder} })
+		}
+	})
+}
